@@ -43,7 +43,7 @@ Definition aw_sids (a : aw) : list N :=
   | AwKeep _ _ s sx => [sid s; sid sx]
   | AwThen _ s => [sid s]
   | AwHeld _ s => [sid s]
-  | AwTick | AwRecv _ => []
+  | AwTick | AwRecv _ | AwRelay _ _ _ => []
   end.
 
 (* every Sleep that a step creates and goes on to await has an id drawn in this step: at least
@@ -56,7 +56,7 @@ Lemma start_step0_fresh now s iv dr nid lg :
   | None => True
   end.
 Proof.
-  cbn zeta. destruct s as [d|t|d v|biased a b|p b| | |polled d1 d2|d| |ch d|ch|d ch|rf ch d|rearm d0 d2 x d3|wf d]; cbn [start_step0 fst snd].
+  cbn zeta. destruct s as [d|t|d v|biased a b|p b| | |polled d1 d2|d| |ch d|ch|d ch|rf ch d|rearm d0 d2 x d3|wf d|wr chi cho]; cbn [start_step0 fst snd].
   - split; [lia|]. cbn [aw_sids sleep_new sid]. split; [repeat constructor; intros []|intros i [<-|[]]; lia].
   - split; [lia|]. cbn [aw_sids sleep_new sid]. split; [repeat constructor; intros []|intros i [<-|[]]; lia].
   - destruct v; cbn [fst snd aw_sids v_sids sleep_new sid app].
@@ -87,5 +87,5 @@ Proof.
     split; [repeat constructor; [intros [E|[]]; lia|intros []]|intros i [<-|[<-|[]]]; lia].
   - pose proof (sleep_poll_sid now (sleep_new (dl now d) nid) dr) as Hsid.
     destruct (sleep_poll now (sleep_new (dl now d) nid) dr) as [[r s1] dr1]. cbn [fst snd sleep_new sid] in Hsid.
-    cbn [fst snd aw_sids]. rewrite Hsid. split; [lia|]. split; [repeat constructor; intros []|intros i [<-|[]]; lia].
+    cbn [fst snd aw_sids]. rewrite Hsid. split; [lia|]. split; [repeat constructor; intros []|intros i [<-|[]]; lia].  - split; [lia|exact I].
 Qed.
